@@ -413,13 +413,15 @@ impl World {
                 }
                 tag = Tag { via: "corrupted", msg: None, label: format!("corrupted ({})", tag.label), gen: None };
             }
-            if to_victim && self.rng.below(1000) < f.replay {
+            let replay = to_victim && self.rng.below(1000) < f.replay;
+            self.flights.push(Flight { due: now + delay, to_victim, node, addr, bytes: bytes.clone(), tag: tag.clone() });
+            if replay {
+                // the copy is queued after the original and is due later: it really is a replay
                 let later = now + delay + Duration::from_millis(5 + self.rng.below(4000));
                 let from = if self.rng.bool() || self.nodes.len() < 2 { addr } else { let j = self.rng.usize(self.nodes.len()); self.nodes[j].sim.addr() };
                 let via: &'static str = if tag.via == "handshake" { "replayed-handshake" } else { "replayed" };
-                self.flights.push(Flight { due: later, to_victim, node, addr: from, bytes: bytes.clone(), tag: Tag { via, msg: None, label: format!("{via} ({}) from {from}", tag.label), gen: None } });
+                self.flights.push(Flight { due: later, to_victim, node, addr: from, bytes, tag: Tag { via, msg: None, label: format!("{via} ({}) from {from}", tag.label), gen: None } });
             }
-            self.flights.push(Flight { due: now + delay, to_victim, node, addr, bytes, tag });
         }
     }
 
@@ -600,6 +602,9 @@ impl World {
         let now = self.now();
         let mut happened = 0;
         let mut fed = self.last_injected.is_some();
+        // earliest first (stable for equal times), so that a delayed datagram never overtakes
+        // one that was due before it when several became due during an idle jump
+        self.flights.sort_by_key(|f| f.due);
         let mut k = 0;
         while k < self.flights.len() {
             if self.flights[k].due <= now && (!self.flights[k].to_victim || !fed) {
